@@ -90,8 +90,12 @@ def spec (caseLine implLine : String) : String :=
           if m + e + b = n then "ok" else s!"FAIL line-accounting {m} metrics + {e} events + {b} bad lines for {n} lines"
         | _, _, _ => "FAIL unreadable-output " ++ implLine
       | _, _ => "FAIL unreadable-output " ++ implLine
-  | "H" :: _ =>
+  | "H" :: hToks =>
     if implLine.startsWith "PANIC" then "FAIL panic-http a handler panicked"
+    else if implLine.startsWith "HANG" then "FAIL hang-http a request was not answered"
+    else if (runH hToks).startsWith "S 202" && !(implLine.startsWith "S 202 dispatched=1") && (tokens implLine).head? = some "S" then
+      -- a body that the libraries read, decompress and decode is refused or not handed on (C14's half of the endpoint's contract)
+      "FAIL valid-refused a body that can be read, decompressed and decoded was not accepted and dispatched: " ++ (implLine.take 60).toString
     else match tokens implLine with
       | ["S", st, d] =>
         match st.toNat?, natAfter "dispatched=" d with
